@@ -11,6 +11,7 @@ use crate::util::vec2d::verif_h::{mk_vec2d, vec2d_addr, vec2d_cell, vec2d_cols, 
 use crate::verif_common::*;
 use crate::verif_spec::*;
 use std::io::{BufRead, Read, Write};
+use crate::decompress::{Options, UnpackedSize};
 
 pub const NB: usize = 56; // decisions on the oracle tape (longest symbol: 48)
 
@@ -491,7 +492,7 @@ fn one_symbol<const CELLS: usize, const PROPS: usize, const UPDATE: bool>() {
     forget(d);
 }
 
-//@ harness props=C01,C07,C08 tier=quick unwind=10 unwindset=RangeDecoder.*E3getB:28,decode_distance:28 mem_gb=10 timeout=1500 native=no opt_covers=dry_longest
+//@ harness props=C01,C07,C08 tier=quick for=C07:thorough,C08:thorough unwind=10 unwindset=RangeDecoder.*E3getB:28,decode_distance:28 mem_gb=10 timeout=1500 native=no opt_covers=dry_longest
 //@ bound: ONE symbol of process_next_inner(update=true) from every valid state (state<12, reps 32-bit, any window length/dict/history, any coder code), any 50 decision bits, symbolic (lc,lp,pb) with lc+lp<=4 (12288-cell table); decode_bit/get_bit replaced by the bit oracle
 #[cfg_attr(kani, kani::proof)]
 #[cfg_attr(kani, kani::stub(std::fmt::format, crate::verif_common::stub_format))]
@@ -539,6 +540,8 @@ pub fn sym_dry_run_symprops() {
 pub const K_LIT: usize = 0;
 pub const K_MARKER: usize = 1;
 pub const K_BAD: usize = 2;
+/// a symbol that produces three bytes (stands for a match: can overshoot a declared size)
+pub const K_WIDE: usize = 3;
 pub fn script(len: usize, kind: usize) -> usize {
     len | (kind << 8)
 }
@@ -592,6 +595,16 @@ where
         match output.append_literal(first ^ last) {
             Ok(()) => {}
             Err(e) => return Err(e),
+        }
+        if kind == K_WIDE {
+            match output.append_literal(first) {
+                Ok(()) => {}
+                Err(e) => return Err(e),
+            }
+            match output.append_literal(last) {
+                Ok(()) => {}
+                Err(e) => return Err(e),
+            }
         }
         d.state = (d.state + 1) & 3;
     }
@@ -957,4 +970,321 @@ pub fn partial_p7_r8_l2_19_1() {
 #[cfg_attr(kani, kani::stub(crate::decode::lzma::DecoderState::process_next_inner, crate::decode::lzma::verif_h::abs_symbol))]
 pub fn partial_p0_r8_l3_3_3() {
     partial_step::<0, 8, 3, 3, 3>()
+}
+
+// ---------------------------------------------------------------------------------------
+// C01-H1 / C08-H1: LzmaParams::read_header on arbitrary bytes, all three size options
+// ---------------------------------------------------------------------------------------
+fn header_any<const OPT: usize, const AVAIL: usize>() {
+    let mut t = Tape::<32>::new();
+    let f: [u8; 14] = t.bytes::<14>();
+    let provided_some = t.bool();
+    let provided_val = t.u64();
+    let provided = if provided_some { Some(provided_val) } else { None };
+    let opts = Options {
+        unpacked_size: match OPT {
+            0 => UnpackedSize::ReadFromHeader,
+            1 => UnpackedSize::ReadHeaderButUseProvided(provided),
+            _ => UnpackedSize::UseProvided(provided),
+        },
+        memlimit: None,
+        allow_incomplete: false,
+    };
+    let mut rd = ArrReader::<14>::new(f, AVAIL);
+    let r = LzmaParams::read_header(&mut rd, &opts);
+    let need = if OPT == 2 { 5 } else { 13 };
+    let props = f[0] as u32;
+    match &r {
+        Ok(p) => {
+            vassert!(AVAIL >= need, "header: Ok needs the whole header");
+            vassert!(props < 225, "header: Ok implies properties byte < 225");
+            vassert!(p.properties.lc == props % 9 && p.properties.lp == (props / 9) % 5 && p.properties.pb == props / 45, "header: lc/lp/pb decoding");
+            vassert!(p.properties.lc <= 8 && p.properties.lp <= 4 && p.properties.pb <= 4, "header: lc/lp/pb in range");
+            let dict = u32::from_le_bytes([f[1], f[2], f[3], f[4]]);
+            vassert!(p.dict_size == if dict < 0x1000 { 0x1000 } else { dict }, "header: dictionary size below 4096 behaves as 4096");
+            let hs = u64::from_le_bytes([f[5], f[6], f[7], f[8], f[9], f[10], f[11], f[12]]);
+            match OPT {
+                0 => {
+                    vassert!(p.unpacked_size == if hs == u64::MAX { None } else { Some(hs) }, "header: size field, all-ones means end marker");
+                }
+                _ => {
+                    vassert!(p.unpacked_size == provided, "header: a caller-supplied size overrides the header field");
+                }
+            }
+            vassert!(rd.pos == need, "header: consumes 13, 13 and 5 bytes for the three options");
+            vcover!(props == 224, "max_props");
+            vcover!(dict < 0x1000, "small_dict_clamped");
+        }
+        Err(e) => {
+            let too_short = match e {
+                error::Error::HeaderTooShort(_) => true,
+                _ => false,
+            };
+            if AVAIL >= need {
+                vassert!(props >= 225, "header: a complete header with props < 225 parses");
+                vassert!(!too_short, "header: invalid properties are not reported as a short header");
+            } else if props < 225 || AVAIL == 0 {
+                vassert!(too_short, "header: a truncated header is reported as HeaderTooShort");
+            }
+            vcover!(true, "header_err");
+        }
+    }
+    forget(r);
+}
+
+//@ harness props=C01,C08,C07 tier=quick unwind=16 unwindset=default_read_exact:4 mem_gb=3 timeout=300
+//@ bound: read_header(ReadFromHeader) on 14 symbolic bytes, all available
+#[cfg_attr(kani, kani::proof)]
+#[cfg_attr(kani, kani::stub(std::fmt::format, crate::verif_common::stub_format))]
+pub fn header_from_header_full() {
+    header_any::<0, 14>()
+}
+
+//@ harness props=C08,C07 tier=quick unwind=16 unwindset=default_read_exact:4 mem_gb=3 timeout=300
+//@ bound: read_header(ReadHeaderButUseProvided(any)) on 14 symbolic bytes
+#[cfg_attr(kani, kani::proof)]
+#[cfg_attr(kani, kani::stub(std::fmt::format, crate::verif_common::stub_format))]
+pub fn header_use_provided_13() {
+    header_any::<1, 14>()
+}
+
+//@ harness props=C08,C07 tier=quick unwind=16 unwindset=default_read_exact:4 mem_gb=3 timeout=300
+//@ bound: read_header(UseProvided(any)) on 14 symbolic bytes (5-byte header)
+#[cfg_attr(kani, kani::proof)]
+#[cfg_attr(kani, kani::stub(std::fmt::format, crate::verif_common::stub_format))]
+pub fn header_use_provided_5() {
+    header_any::<2, 14>()
+}
+
+//@ harness props=C08,C07,C05 tier=quick unwind=16 unwindset=default_read_exact:4 mem_gb=3 timeout=300 opt_covers=max_props,small_dict_clamped
+//@ bound: read_header(ReadFromHeader) with only 12 of 13 bytes available
+#[cfg_attr(kani, kani::proof)]
+#[cfg_attr(kani, kani::stub(std::fmt::format, crate::verif_common::stub_format))]
+pub fn header_truncated_12() {
+    header_any::<0, 12>()
+}
+
+//@ harness props=C08,C07,C05 tier=quick unwind=16 unwindset=default_read_exact:4 mem_gb=3 timeout=300 opt_covers=max_props,small_dict_clamped
+//@ bound: read_header(UseProvided) with only 3 of 5 bytes available
+#[cfg_attr(kani, kani::proof)]
+#[cfg_attr(kani, kani::stub(std::fmt::format, crate::verif_common::stub_format))]
+pub fn header_truncated_3() {
+    header_any::<2, 3>()
+}
+
+
+// ---------------------------------------------------------------------------------------
+// C08-H2: exit rules of process_mode(Finish) (the one-shot path and Stream::finish)
+//   script of NS <= 4 abstract symbols with concrete kinds/lengths, T trailing bytes,
+//   unpacked_size = None or Some(symbolic), coder code symbolic.
+// ---------------------------------------------------------------------------------------
+fn finish_rules<const NS: usize, const K0: usize, const K1: usize, const K2: usize, const K3: usize, const L: usize, const T: usize, const SIZED: bool>() {
+    let mut t = Tape::<64>::new();
+    let q: [u8; 24] = t.bytes::<24>();
+    let code = t.u32();
+    let s = t.u64();
+    let base = (t.u16() as usize) & 0xFF;
+    let kinds = [K0, K1, K2, K3];
+    let total = NS * L + T;
+    let size = if SIZED { Some(s) } else { None };
+    let mut d = light_state::<0>(LzmaProperties { lc: 0, lp: 0, pb: 0 }, size);
+    d.state = 0;
+    // entries beyond NS are never complete (length 20 > any leftover here) -> "input exhausted"
+    let mut sc = [script(20, K_LIT); 4];
+    let mut i = 0;
+    while i < NS {
+        sc[i] = script(L, kinds[i]);
+        i += 1;
+    }
+    d.rep = sc;
+    let mut rd = ArrReader::<24>::new(q, total);
+    let mut win = SeqWindow::<12>::new(base);
+    let (res_ok, r_code) = {
+        let mut rc = RangeDecoder::from_parts(&mut rd, 0xFFFF_FFFF, code);
+        let r = d.process(&mut win, &mut rc);
+        let ok = r.is_ok();
+        forget(r);
+        (ok, rc.code)
+    };
+    // ---- reference model of the rules in the property statement
+    let mut produced: u64 = base as u64;
+    let mut pos = 0usize;
+    let mut c = code;
+    let mut rg: u32 = 0xFFFF_FFFF;
+    let mut verdict: u8 = 0; // 0 running, 1 ok, 2 err
+    let mut marker_seen = false;
+    let mut nosize_eof_exit = false;
+    let mut j = 0;
+    while j <= NS {
+        if verdict == 0 {
+            let reached = match size {
+                Some(n) => produced >= n,
+                None => false,
+            };
+            if reached {
+                verdict = if produced == size.unwrap_or(0) { 1 } else { 2 };
+            } else if size.is_none() && c == 0 && pos == total {
+                // the loop-head exit of the implementation: input ends on a symbol boundary with
+                // code == 0 although no end marker was decoded (finding D4 when no marker seen)
+                verdict = 1;
+                nosize_eof_exit = true;
+            } else if j == NS {
+                verdict = 2; // input exhausted before the size / the marker was reached
+            } else {
+                let f = q[pos];
+                let l = q[pos + L - 1];
+                let (a, b) = abs_fold(rg, c, f, l);
+                rg = a;
+                c = b;
+                pos += L;
+                if kinds[j] == K_BAD {
+                    verdict = 2;
+                } else if kinds[j] == K_MARKER {
+                    marker_seen = true;
+                    // marker: fine only if the coder is clean and nothing follows
+                    if c == 0 && pos == total {
+                        verdict = match size {
+                            Some(n) => {
+                                if produced == n {
+                                    1
+                                } else {
+                                    2
+                                }
+                            }
+                            None => 1,
+                        };
+                    } else {
+                        verdict = 2;
+                    }
+                } else {
+                    produced += if kinds[j] == K_WIDE { 3 } else { 1 };
+                }
+            }
+        }
+        j += 1;
+    }
+    if verdict == 0 {
+        verdict = 2;
+    }
+    let known_d4 = verdict == 1 && nosize_eof_exit && !marker_seen;
+    vcover!(known_d4 && res_ok, "KF:C08:nosize-eof-code0-without-marker");
+    if !known_d4 {
+        vassert!(res_ok == (verdict == 1), "finish: verdict follows the size / end-marker rules");
+    }
+    if res_ok {
+        match size {
+            Some(n) => {
+                vassert!(win.len() as u64 == n, "finish: success with a size in effect means exactly that many bytes");
+            }
+            None => {
+                vassert!(marker_seen || known_d4, "finish: without a size, success means the end marker was decoded");
+                vassert!(rd.pos == total, "finish: without a size, nothing may follow the end marker");
+            }
+        }
+        vassert!(rd.pos == pos, "finish: consumes exactly the symbols it decoded, nothing after them");
+        vassert!(r_code == c, "finish: coder state advanced by the decoded symbols");
+    }
+    vcover!(res_ok, "finish_ok");
+    vcover!(!res_ok, "finish_err");
+    vcover!(true, "end_reached");
+    forget(d);
+}
+
+//@ harness props=C08,C11,C07 tier=quick unwind=8 unwindset=process_mode:7 mem_gb=4 timeout=600 native=no opt_covers=KF:C08:nosize-eof-code0-without-marker
+//@ bound: process(Finish): 4 abstract symbols kinds [0,0,0,0] (0 lit,1 marker,2 corrupt,3 three-byte) of 3 bytes, 0 trailing bytes, size Some(symbolic), symbolic code / initial length
+#[cfg_attr(kani, kani::proof)]
+#[cfg_attr(kani, kani::stub(std::fmt::format, crate::verif_common::stub_format))]
+#[cfg_attr(kani, kani::stub(crate::decode::lzma::DecoderState::process_next_inner, crate::decode::lzma::verif_h::abs_symbol))]
+pub fn finish_sized_lit4_t0() {
+    finish_rules::<4, 0, 0, 0, 0, 3, 0, true>()
+}
+
+//@ harness props=C08,C11,C07 tier=quick unwind=8 unwindset=process_mode:7 mem_gb=4 timeout=600 native=no opt_covers=KF:C08:nosize-eof-code0-without-marker
+//@ bound: process(Finish): 3 abstract symbols kinds [0,0,0,0] (0 lit,1 marker,2 corrupt,3 three-byte) of 3 bytes, 4 trailing bytes, size Some(symbolic), symbolic code / initial length
+#[cfg_attr(kani, kani::proof)]
+#[cfg_attr(kani, kani::stub(std::fmt::format, crate::verif_common::stub_format))]
+#[cfg_attr(kani, kani::stub(crate::decode::lzma::DecoderState::process_next_inner, crate::decode::lzma::verif_h::abs_symbol))]
+pub fn finish_sized_lit3_t4() {
+    finish_rules::<3, 0, 0, 0, 0, 3, 4, true>()
+}
+
+//@ harness props=C08,C11,C07 tier=quick unwind=8 unwindset=process_mode:7 mem_gb=4 timeout=600 native=no opt_covers=KF:C08:nosize-eof-code0-without-marker
+//@ bound: process(Finish): 3 abstract symbols kinds [0,0,1,0] (0 lit,1 marker,2 corrupt,3 three-byte) of 2 bytes, 0 trailing bytes, size Some(symbolic), symbolic code / initial length
+#[cfg_attr(kani, kani::proof)]
+#[cfg_attr(kani, kani::stub(std::fmt::format, crate::verif_common::stub_format))]
+#[cfg_attr(kani, kani::stub(crate::decode::lzma::DecoderState::process_next_inner, crate::decode::lzma::verif_h::abs_symbol))]
+pub fn finish_sized_lit2_marker_t0() {
+    finish_rules::<3, 0, 0, 1, 0, 2, 0, true>()
+}
+
+//@ harness props=C08,C11,C07 tier=quick unwind=8 unwindset=process_mode:7 mem_gb=4 timeout=600 native=no opt_covers=KF:C08:nosize-eof-code0-without-marker
+//@ bound: process(Finish): 3 abstract symbols kinds [0,3,0,0] (0 lit,1 marker,2 corrupt,3 three-byte) of 2 bytes, 0 trailing bytes, size Some(symbolic), symbolic code / initial length
+#[cfg_attr(kani, kani::proof)]
+#[cfg_attr(kani, kani::stub(std::fmt::format, crate::verif_common::stub_format))]
+#[cfg_attr(kani, kani::stub(crate::decode::lzma::DecoderState::process_next_inner, crate::decode::lzma::verif_h::abs_symbol))]
+pub fn finish_sized_wide_overshoot() {
+    finish_rules::<3, 0, 3, 0, 0, 2, 0, true>()
+}
+
+//@ harness props=C08,C11,C07 tier=quick unwind=8 unwindset=process_mode:7 mem_gb=4 timeout=600 native=no opt_covers=KF:C08:nosize-eof-code0-without-marker
+//@ bound: process(Finish): 3 abstract symbols kinds [0,2,0,0] (0 lit,1 marker,2 corrupt,3 three-byte) of 2 bytes, 0 trailing bytes, size Some(symbolic), symbolic code / initial length
+#[cfg_attr(kani, kani::proof)]
+#[cfg_attr(kani, kani::stub(std::fmt::format, crate::verif_common::stub_format))]
+#[cfg_attr(kani, kani::stub(crate::decode::lzma::DecoderState::process_next_inner, crate::decode::lzma::verif_h::abs_symbol))]
+pub fn finish_sized_bad_symbol() {
+    finish_rules::<3, 0, 2, 0, 0, 2, 0, true>()
+}
+
+//@ harness props=C08,C11,C07 tier=quick unwind=8 unwindset=process_mode:7 mem_gb=4 timeout=600 native=no opt_covers=KF:C08:nosize-eof-code0-without-marker
+//@ bound: process(Finish): 3 abstract symbols kinds [0,0,1,0] (0 lit,1 marker,2 corrupt,3 three-byte) of 3 bytes, 0 trailing bytes, size None, symbolic code / initial length
+#[cfg_attr(kani, kani::proof)]
+#[cfg_attr(kani, kani::stub(std::fmt::format, crate::verif_common::stub_format))]
+#[cfg_attr(kani, kani::stub(crate::decode::lzma::DecoderState::process_next_inner, crate::decode::lzma::verif_h::abs_symbol))]
+pub fn finish_nosize_lit2_marker_t0() {
+    finish_rules::<3, 0, 0, 1, 0, 3, 0, false>()
+}
+
+//@ harness props=C08,C11,C07 tier=quick unwind=8 unwindset=process_mode:7 mem_gb=4 timeout=600 native=no opt_covers=finish_ok,KF:C08:nosize-eof-code0-without-marker
+//@ bound: process(Finish): 3 abstract symbols kinds [0,0,1,0] (0 lit,1 marker,2 corrupt,3 three-byte) of 3 bytes, 1 trailing bytes, size None, symbolic code / initial length
+#[cfg_attr(kani, kani::proof)]
+#[cfg_attr(kani, kani::stub(std::fmt::format, crate::verif_common::stub_format))]
+#[cfg_attr(kani, kani::stub(crate::decode::lzma::DecoderState::process_next_inner, crate::decode::lzma::verif_h::abs_symbol))]
+pub fn finish_nosize_lit2_marker_t1() {
+    finish_rules::<3, 0, 0, 1, 0, 3, 1, false>()
+}
+
+//@ harness props=C08,C11,C07 tier=quick unwind=8 unwindset=process_mode:7 mem_gb=4 timeout=600 native=no opt_covers=KF:C08:nosize-eof-code0-without-marker
+//@ bound: process(Finish): 1 abstract symbols kinds [1,0,0,0] (0 lit,1 marker,2 corrupt,3 three-byte) of 5 bytes, 0 trailing bytes, size None, symbolic code / initial length
+#[cfg_attr(kani, kani::proof)]
+#[cfg_attr(kani, kani::stub(std::fmt::format, crate::verif_common::stub_format))]
+#[cfg_attr(kani, kani::stub(crate::decode::lzma::DecoderState::process_next_inner, crate::decode::lzma::verif_h::abs_symbol))]
+pub fn finish_nosize_marker_first() {
+    finish_rules::<1, 1, 0, 0, 0, 5, 0, false>()
+}
+
+//@ harness props=C08,C11,C07 tier=quick unwind=8 unwindset=process_mode:7 mem_gb=4 timeout=600 native=no
+//@ bound: process(Finish): 3 abstract symbols kinds [0,0,0,0] (0 lit,1 marker,2 corrupt,3 three-byte) of 2 bytes, 0 trailing bytes, size None, symbolic code / initial length
+#[cfg_attr(kani, kani::proof)]
+#[cfg_attr(kani, kani::stub(std::fmt::format, crate::verif_common::stub_format))]
+#[cfg_attr(kani, kani::stub(crate::decode::lzma::DecoderState::process_next_inner, crate::decode::lzma::verif_h::abs_symbol))]
+pub fn finish_nosize_lit3_nomarker() {
+    finish_rules::<3, 0, 0, 0, 0, 2, 0, false>()
+}
+
+//@ harness props=C08,C11,C07 tier=quick unwind=8 unwindset=process_mode:7 mem_gb=4 timeout=600 native=no opt_covers=finish_err
+//@ bound: process(Finish): 0 abstract symbols kinds [0,0,0,0] (0 lit,1 marker,2 corrupt,3 three-byte) of 1 bytes, 0 trailing bytes, size None, symbolic code / initial length
+#[cfg_attr(kani, kani::proof)]
+#[cfg_attr(kani, kani::stub(std::fmt::format, crate::verif_common::stub_format))]
+#[cfg_attr(kani, kani::stub(crate::decode::lzma::DecoderState::process_next_inner, crate::decode::lzma::verif_h::abs_symbol))]
+pub fn finish_nosize_empty() {
+    finish_rules::<0, 0, 0, 0, 0, 1, 0, false>()
+}
+
+//@ harness props=C08,C11,C07 tier=quick unwind=8 unwindset=process_mode:7 mem_gb=4 timeout=600 native=no opt_covers=KF:C08:nosize-eof-code0-without-marker
+//@ bound: process(Finish): 0 abstract symbols kinds [0,0,0,0] (0 lit,1 marker,2 corrupt,3 three-byte) of 1 bytes, 0 trailing bytes, size Some(symbolic), symbolic code / initial length
+#[cfg_attr(kani, kani::proof)]
+#[cfg_attr(kani, kani::stub(std::fmt::format, crate::verif_common::stub_format))]
+#[cfg_attr(kani, kani::stub(crate::decode::lzma::DecoderState::process_next_inner, crate::decode::lzma::verif_h::abs_symbol))]
+pub fn finish_sized_empty() {
+    finish_rules::<0, 0, 0, 0, 0, 1, 0, true>()
 }
